@@ -197,12 +197,12 @@ def setup_profile():
             break
         pf.set_fit_params(params)
 
-    print("\nSelect range type (absolute or relative):")
+    print("\nSelect range type (absolute or relative cp):")
     while True:
         rt = input("(currently '{}'): ".format(pf["range_type"]))
         if rt:
-            if rt not in ["absolute", "relative"]:
-                print("Please choose 'absolute' or 'relative'.")
+            if rt not in ["absolute", "relative cp"]:
+                print("Please choose 'absolute' or 'relative cp'.")
                 continue
             pf["range_type"] = rt
         break
